@@ -92,6 +92,24 @@ func c19(c *orch.Ctx) (*report.Result, error) {
 				p.ExtraFiles["models/zz_decoy.go"] = decoyController("models", "DecoyInModels")
 				p.SetFeature("unglobbed-controller-in-imported-package")
 			}
+			if i%2 == 0 {
+				// @TemplateContext options (a map owned by the cached annotation) with and without trailing text
+				for ci := range p.Controllers {
+					for mi := range p.Controllers[ci].Methods {
+						m := &p.Controllers[ci].Methods[mi]
+						if m.Verb == "" {
+							continue
+						}
+						switch (ci + mi) % 3 {
+						case 0:
+							m.ExtraAnn = append(m.ExtraAnn, `// @TemplateContext(MODE, {mode: "100", description: "shown in templates"})`)
+						case 1:
+							m.ExtraAnn = append(m.ExtraAnn, `// @TemplateContext(LEVEL, {value: "high", description: "inner"}) trailing words`)
+						}
+					}
+				}
+				p.SetFeature("template-context-with-description-option")
+			}
 			var pt *Perturbation
 			if i%5 == 4 {
 				// a project that fails validation: diagnostics must be stable too
